@@ -293,7 +293,13 @@ def loc_counters(ctx) -> list[dict]:
 
     repo = ctx.repo
     out = []
-    cands = [f for f in repo.funcs_in("src.linters.srp.") if f.name in ("count_loc", "_node_loc") and f.cls is None or f.name == "_node_loc"]
+    # the per-language LOC counters, by role: functions of the SRP package that cut a slice of lines out of the file's
+    # source (split on newlines + a slice subscript); wrappers that only delegate are not counters themselves
+    def _is_counter(g):
+        splits = any(isinstance(n, ast.Call) and call_name(n) in ("split", "splitlines") for n in ast.walk(g.node))
+        slices = any(isinstance(n, ast.Subscript) and isinstance(n.slice, ast.Slice) for n in ast.walk(g.node))
+        return splits and slices and g.parent is None
+    cands = [f for f in repo.funcs_in("src.linters.srp.") if _is_counter(f)]
     seen = set()
     for f in cands:
         if f.qual in seen:
